@@ -108,11 +108,11 @@ func runSync(o syncOpt) *syncRes {
 // notification recorder and the caller's content hasher
 
 type note struct {
-	Kind   string `json:"kind"`
-	Path   string `json:"path"`
-	Digest string `json:"digest,omitempty"`
+	Kind   string      `json:"kind"`
+	Path   string      `json:"path"`
+	Digest string      `json:"digest,omitempty"`
 	Stat   *types.Stat `json:"-"`
-	Mode   uint32 `json:"mode,omitempty"`
+	Mode   uint32      `json:"mode,omitempty"`
 }
 
 type notifyRec struct {
